@@ -306,7 +306,7 @@ End PInd.
 (* ================================================================== *)
 (* Part 3: scalars                                                     *)
 (* ================================================================== *)
-Definition dok (d : dialect) (bp : bool) : Prop := d = std \/ (d = pkgd /\ bp = false).
+Definition dok (d : dialect) (bp : bool) : Prop := d = std \/ d = pkgd \/ (d = pkgd_old /\ bp = false).
 
 Lemma s64_w64 : forall z, s64 (w64 z) = s64 z.
 Proof. intros. unfold s64, w64. rewrite Z.mod_mod by (intro E; discriminate E). reflexivity. Qed.
@@ -356,7 +356,7 @@ Proof.
   - rewrite unzigzag_zigzag. reflexivity.
   - (* bool *)
     assert (E : strict_bool d && negb (Z.of_nat k + 1 =? 1) = false).
-    { destruct Hd as [-> | [-> ->]]; [reflexivity|].
+    { destruct Hd as [-> | [-> | [-> ->]]]; [reflexivity|reflexivity|].
       destruct Hk as [Hk | [Hk | Hk]]; [discriminate | congruence | subst k; reflexivity]. }
     rewrite E. destruct b; reflexivity.
   - reflexivity.
@@ -1125,7 +1125,7 @@ Proof.
   intros d fs m Hd Hdesc Hwf Hlen.
   apply (spec_reencode d false fs m); try assumption.
   - apply spec_encode_reencodes; try assumption. change (2 ^ 64) with (2 ^ 31 * 2 ^ 33). lia.
-  - destruct Hd; [left | right]; auto.
+  - destruct Hd; [left | right; left]; auto.
 Qed.
 
 Lemma spec_roundtrip : spec_roundtrip_statement.
